@@ -100,11 +100,22 @@ def _is_name(n, ident):
     return isinstance(n, ast.Name) and n.id == ident
 
 
+DG_REPAIRED = [   # modulo the names of local variables, docstrings, comments (pyexpr.normalized_statements)
+    "v0 = set()",
+    "for v1 in type(obj).__mro__:\n    v2 = vars(v1)\n    for v3, v4 in v2.items():\n        if v3 in v0:\n            continue\n"
+    "        v0.add(v3)\n        if isinstance(v4, BaseObservable):\n            yield (v4.public_name, v4.signal_types)",
+]
+DG_UNREPAIRED = [
+    "for v0 in type(obj).__mro__:\n    v1 = vars(v0)\n    for v2 in v1.values():\n        if isinstance(v2, BaseObservable):\n"
+    "            yield (v2.public_name, v2.signal_types)",
+]
+
+
 def c_dg_shadowing():
-    """descriptor_generator: `for base in type(obj).__mro__:` then per class either
-    (repaired)   for name, entry in base_dict.items(): if name in seen: continue; seen.add(name); if isinstance(..): yield ..
-    (unrepaired) for entry in base_dict.values(): if isinstance(..): yield ..
-    anything else is not a shape the model knows"""
+    """descriptor_generator, statement for statement modulo local names: the repaired walk (skip names already seen
+    in a more derived class) gives true, the unrepaired one false, anything else is not a shape the model knows"""
+    import pyexpr
+
     ms = _parse(MS)
     fn = None
     for n in ms.body:
@@ -112,52 +123,14 @@ def c_dg_shadowing():
             fn = n
     if fn is None:
         raise Broken("descriptor_generator not found")
-    outer = [n for n in fn.body if isinstance(n, ast.For)]
-    if len(outer) != 1:
-        raise Broken("descriptor_generator: expected exactly one outer for loop")
-    it = outer[0].iter
-    if not (isinstance(it, ast.Attribute) and it.attr == "__mro__" and isinstance(it.value, ast.Call)
-            and _is_name(it.value.func, "type") and len(it.value.args) == 1 and _is_name(it.value.args[0], "obj")):
-        raise Broken("descriptor_generator does not iterate type(obj).__mro__ (most derived class first)")
-    inner = [n for n in outer[0].body if isinstance(n, ast.For)]
-    if len(inner) != 1:
-        raise Broken("descriptor_generator: expected exactly one inner for loop")
-    body = inner[0].body
-    yields = [n for n in ast.walk(inner[0]) if isinstance(n, ast.Yield)]
-    if len(yields) != 1 or not (isinstance(yields[0].value, ast.Tuple) and len(yields[0].value.elts) == 2
-                                and all(isinstance(e, ast.Attribute) and _is_name(e.value, "entry") for e in yields[0].value.elts)
-                                and [e.attr for e in yields[0].value.elts] == ["public_name", "signal_types"]):
-        raise Broken("descriptor_generator does not yield entry.public_name, entry.signal_types")
-    last = body[-1]
-    if not (isinstance(last, ast.If) and isinstance(last.test, ast.Call) and _is_name(last.test.func, "isinstance")
-            and len(last.test.args) == 2 and _is_name(last.test.args[0], "entry") and _is_name(last.test.args[1], "BaseObservable")
-            and len(last.body) == 1 and isinstance(last.body[0], ast.Expr) and last.body[0].value is yields[0] and not last.orelse):
-        raise Broken("descriptor_generator: the yield is not guarded by isinstance(entry, BaseObservable) as the last statement")
-    mentions_seen = any(_is_name(n, "seen") for n in ast.walk(fn))
-    if not mentions_seen:
-        if len(body) == 1:
-            return "Definition gen_dg_shadowing : bool := false."
-        raise Broken("descriptor_generator: unknown loop body")
-    # repaired shape
-    inits = [n for n in fn.body if isinstance(n, ast.Assign) and len(n.targets) == 1 and _is_name(n.targets[0], "seen")]
-    if not (len(inits) == 1 and isinstance(inits[0].value, ast.Call) and _is_name(inits[0].value.func, "set") and not inits[0].value.args):
-        raise Broken("descriptor_generator: seen is not initialised once with set() before the walk")
-    tgt = inner[0].target
-    if not (isinstance(tgt, ast.Tuple) and len(tgt.elts) == 2 and _is_name(tgt.elts[0], "name") and _is_name(tgt.elts[1], "entry")
-            and isinstance(inner[0].iter, ast.Call) and isinstance(inner[0].iter.func, ast.Attribute) and inner[0].iter.func.attr == "items"):
-        raise Broken("descriptor_generator: inner loop is not `for name, entry in <dict>.items()`")
-    if len(body) != 3:
-        raise Broken("descriptor_generator: inner loop body is not [skip-if-seen, seen.add, yield-if-observable]")
-    skip, add = body[0], body[1]
-    ok_skip = (isinstance(skip, ast.If) and isinstance(skip.test, ast.Compare) and _is_name(skip.test.left, "name")
-               and len(skip.test.ops) == 1 and isinstance(skip.test.ops[0], ast.In) and _is_name(skip.test.comparators[0], "seen")
-               and len(skip.body) == 1 and isinstance(skip.body[0], ast.Continue) and not skip.orelse)
-    ok_add = (isinstance(add, ast.Expr) and isinstance(add.value, ast.Call) and isinstance(add.value.func, ast.Attribute)
-              and add.value.func.attr == "add" and _is_name(add.value.func.value, "seen")
-              and len(add.value.args) == 1 and _is_name(add.value.args[0], "name"))
-    if not (ok_skip and ok_add):
-        raise Broken("descriptor_generator: shadowing logic is not `if name in seen: continue; seen.add(name)`")
-    return "Definition gen_dg_shadowing : bool := true."
+    if [a.arg for a in fn.args.args] != ["obj"]:
+        raise Broken("descriptor_generator: parameters changed")
+    got = pyexpr.normalized_statements(fn)
+    if got == DG_REPAIRED:
+        return "Definition gen_dg_shadowing : bool := true."
+    if got == DG_UNREPAIRED:
+        return "Definition gen_dg_shadowing : bool := false."
+    raise Broken("descriptor_generator changed: " + " | ".join(got)[:300])
 
 
 def fb_dg_shadowing():
